@@ -496,7 +496,37 @@ func extractPipeline() (string, error) {
 			return true
 		})
 		fmt.Fprintf(&b, "def clientErrorThreshold : String := %s\ndef clientValidationStatusTest : String := %s\n", leanStr(threshold), leanStr(vErr))
+		// how the emitted client reads a response body: every call that is handed `resp.Body` (distinct, in source order)
+		var reads []string
+		seenRead := map[string]bool{}
+		ast.Inspect(cf, func(n ast.Node) bool {
+			call, ok := n.(*ast.CallExpr)
+			if !ok {
+				return true
+			}
+			for _, a := range call.Args {
+				if strings.Contains(srcOf(a), "resp.Body") {
+					t := srcOf(call)
+					if !seenRead[t] {
+						seenRead[t] = true
+						reads = append(reads, t)
+					}
+					return false
+				}
+			}
+			return true
+		})
+		b.WriteString("/-- every call of the emitted client that is handed `resp.Body`. -/\n")
+		fmt.Fprintf(&b, "def clientBodyReads : List String := %s\n", leanStrList(reads))
 	}
+	// the header table literal: which getter each attribute of an emitted `sebufhttp.Header{…}` entry is written from
+	// (generator side, internal/httpgen/generator.go generateHeaderLiteral)
+	hl, err := headerLiteralFacts()
+	if err != nil {
+		return "", err
+	}
+	b.WriteString("/-- `generateHeaderLiteral`: (attribute of the emitted header entry, the expression its value is printed from). -/\n")
+	fmt.Fprintf(&b, "def headerLiteral : List (String × String) := %s\n", leanPairs(hl))
 	b.WriteString("end Sebuf.Gen.Pipeline\n")
 	return b.String(), nil
 }
@@ -517,4 +547,51 @@ func stripPkgAndSource(src string) string {
 		out = append(out, l)
 	}
 	return strings.Join(out, "\n")
+}
+
+func headerLiteralFacts() ([][2]string, error) {
+	pf, err := parser.ParseFile(token.NewFileSet(), repo("internal/httpgen/generator.go"), nil, 0)
+	if err != nil {
+		return nil, err
+	}
+	fd := findFunc(pf, "generateHeaderLiteral")
+	if fd == nil {
+		return nil, fmt.Errorf("generateHeaderLiteral not found in internal/httpgen/generator.go")
+	}
+	// the parameter that carries the declaration is called `header` here, whatever its name in the source
+	if fd.Type.Params != nil {
+		for _, prm := range fd.Type.Params.List {
+			if strings.HasSuffix(srcOf(prm.Type), ".Header") && len(prm.Names) == 1 {
+				renameIdent(fd, prm.Names[0].Name, "header")
+			}
+		}
+	}
+	var out [][2]string
+	ast.Inspect(fd.Body, func(n ast.Node) bool {
+		call, ok := n.(*ast.CallExpr)
+		if !ok || len(call.Args) < 2 {
+			return true
+		}
+		if sel, ok := call.Fun.(*ast.SelectorExpr); !ok || sel.Sel.Name != "P" {
+			return true
+		}
+		bl, ok := call.Args[0].(*ast.BasicLit)
+		if !ok || bl.Kind != token.STRING {
+			return true
+		}
+		lit, err := strconv.Unquote(bl.Value)
+		if err != nil {
+			return true
+		}
+		i := strings.Index(lit, ":")
+		if i <= 0 {
+			return true
+		}
+		out = append(out, [2]string{strings.TrimSpace(lit[:i]), srcOf(call.Args[1])})
+		return true
+	})
+	if len(out) == 0 {
+		return nil, fmt.Errorf("generateHeaderLiteral prints no `Key: value` line")
+	}
+	return out, nil
 }
